@@ -169,7 +169,11 @@ void mmd_print_char_opendocument(DString * out, char c, bool line_breaks) {
 			break;
 
 		case '\t':
-			print_const("<text:tab/>");
+			if (line_breaks) {
+				// Markup is only valid in text content -- attribute values
+				// (URLs, titles, dimensions) are printed without line breaks
+				print_const("<text:tab/>");
+			}
 
 		default:
 			print_char(c);
